@@ -16,6 +16,7 @@ mod link_hostile;
 mod refcodec;
 mod runner;
 mod scenario;
+mod send;
 mod sim;
 mod tape;
 
